@@ -77,6 +77,10 @@ def build(beh):
     atoms.set_tags([1, 2])
     if s0["cons"]:
         atoms.set_constraint(FixAtoms(indices=[i - 1 for i in s0["cons"]]))
+    if beh.get("fixcom"):
+        from ase.constraints import FixCom
+
+        atoms.set_constraint(FixCom())
     atoms.calc = Harmonic(k=0.2, centers=atoms.positions + 0.4, eps=0.05, cellk=0.0005)
     drv = beh["driver"]
     kw = dict(max_cycles=1, seed=3)
@@ -231,6 +235,21 @@ def replay(beh):
                     displaced.append(sub["lab"])
                 else:
                     g.script("choice_u", cands[0])
+        if ent["ctype"] == "cexch":
+            oks = [sub for sub in subs if sub["ok"]]
+            deleting = bool(oks) and oks[0]["dir"] == "del"
+            # the composite draws its direction first: random() < bias_towards_insert (0.5) means insertion
+            g.script("random", 0.9 if deleting else 0.1)
+            if deleting:
+                gone = []
+                for mid, sub in zip(ent["elems"], subs):
+                    lab = np.asarray(objs[mid].labels)
+                    cands = sorted(set(int(x) for x in lab if x >= 0) - set(gone))
+                    if sub["ok"]:
+                        g.script("choice_u", sub["lab"])
+                        gone.append(sub["lab"])
+                    elif cands:
+                        return ("replay:not-realisable", "a deleting composite cannot skip an element that has candidates", {})
         for mid, oks in per_obj_calls.items():
             # check_move is consulted once per call (max_attempts = 1): scripted in call order
             vetoes[mid].queue = []
